@@ -206,6 +206,16 @@ def execute(history, contents, pathids):
                     extra = True
                     if ev["kind"] in ("Mask2D", "Mask1D"):
                         extra = vals.dtype == bool
+                    if ev["kind"] == "Mask2D":
+                        # options of Mask2D.from_fits: invert gives the complementary booleans, resized_mask_shape the
+                        # centred resize (C14) of the mask read without it
+                        import autoarray as aa
+
+                        inv = aa.Mask2D.from_fits(file_path=fp, pixel_scales=sc, hdu=0, invert=True)
+                        extra = extra and np.array_equal(np.asarray(inv).astype(bool), ~vals)
+                        tgt = (vals.shape[0] + 2, vals.shape[1] + 1)
+                        rs = aa.Mask2D.from_fits(file_path=fp, pixel_scales=sc, hdu=0, resized_mask_shape=tgt)
+                        extra = extra and np.array_equal(np.asarray(rs).astype(bool), np.asarray(o.resized_from(new_shape=tgt)).astype(bool))
                     r["cid"], r["flipped"], r["extra_ok"] = cid, bool(fl), bool(extra)
                 except Exception as e:
                     r["cid"], r["flipped"], r["extra_ok"], r["err"] = "error:" + type(e).__name__, False, True, str(e)[:100]
